@@ -613,11 +613,14 @@ class TrialConverter:
 
     completion_time = None
     infeasibility_reason = None
-    if proto.state == study_pb2.Trial.State.SUCCEEDED:
+    if proto.state in (
+        study_pb2.Trial.State.SUCCEEDED,
+        study_pb2.Trial.State.INFEASIBLE,
+    ):
       if proto.HasField('end_time'):
         completion_ts = proto.end_time.seconds + 1e-9 * proto.end_time.nanos
         completion_time = datetime.datetime.fromtimestamp(completion_ts)
-    elif proto.state == study_pb2.Trial.State.INFEASIBLE:
+    if proto.state == study_pb2.Trial.State.INFEASIBLE:
       infeasibility_reason = proto.infeasible_reason
 
     metadata = common.Metadata()
@@ -636,7 +639,7 @@ class TrialConverter:
       creation_time = datetime.datetime.fromtimestamp(creation_ts)
     return trial.Trial(
         id=int(proto.id),
-        description=proto.name,
+        description=proto.name or None,
         assigned_worker=proto.client_id or None,
         is_requested=proto.state == proto.REQUESTED,
         stopping_reason=(
